@@ -69,3 +69,54 @@ Example C03_hypotheses_needed : exists p v, api_valid p = false /\
   eval_allowed shipped_lists false shipped_checks Baseline v p = false.
 Proof. exact shipped_hypotheses_needed. Qed.
 Print Assumptions C03_hypotheses_needed.
+
+(** ---- the ordering seen through admission (C03 composed with C01) ---- *)
+From Coq Require Import ZArith.
+From PSA Require Import Model.Admission Model.Namespace Spec.PAdm Proofs.AdmFactsA Proofs.LevelsAdm.
+(** the same pod request under two configurations / namespace label sets: if
+    both reach evaluation, the enforce versions agree and the second enforce
+    level is no stricter than the first, then allowed under the first implies
+    allowed under the second (the evaluator is the one built from the shipped table) *)
+Theorem C03_admission_monotone : forall c c' relax r w w' ls ls' p,
+  evaluated_pod c r w = Some (ls, p) -> evaluated_pod c' r w' = Some (ls', p) ->
+  api_valid p = true ->
+  lv_version (enforce (spec_policy ls' (cf_defaults c'))) = lv_version (enforce (spec_policy ls (cf_defaults c))) ->
+  (strictness (lv_level (enforce (spec_policy ls' (cf_defaults c'))))
+   <= strictness (lv_level (enforce (spec_policy ls (cf_defaults c)))))%N ->
+  rs_allowed (fst (validate c (shipped_ev relax) r w)) = true ->
+  rs_allowed (fst (validate c' (shipped_ev relax) r w')) = true.
+Proof. exact admission_monotone_proof. Qed.
+Print Assumptions C03_admission_monotone.
+
+(** and a denial under the relaxed level is a denial under the stricter one *)
+Theorem C03_admission_denial_antitone : forall c c' relax r w w' ls ls' p,
+  evaluated_pod c r w = Some (ls, p) -> evaluated_pod c' r w' = Some (ls', p) ->
+  api_valid p = true ->
+  lv_version (enforce (spec_policy ls' (cf_defaults c'))) = lv_version (enforce (spec_policy ls (cf_defaults c))) ->
+  (strictness (lv_level (enforce (spec_policy ls' (cf_defaults c'))))
+   <= strictness (lv_level (enforce (spec_policy ls (cf_defaults c)))))%N ->
+  rs_allowed (fst (validate c' (shipped_ev relax) r w')) = false ->
+  rs_allowed (fst (validate c (shipped_ev relax) r w)) = false.
+Proof. exact admission_antitone_denial_proof. Qed.
+Print Assumptions C03_admission_denial_antitone.
+
+(** a namespace that resolves to enforce=privileged denies no evaluated pod
+    request, for any evaluator that runs nothing at privileged (C03_privileged) *)
+Theorem C03_admission_privileged : forall c ev r w ls p,
+  ev_privileged_allows ev -> evaluated_pod c r w = Some (ls, p) ->
+  lv_level (enforce (spec_policy ls (cf_defaults c))) = Privileged ->
+  rs_allowed (fst (validate c ev r w)) = true.
+Proof. exact admission_privileged_proof. Qed.
+Print Assumptions C03_admission_privileged.
+
+(** non-vacuity: an evaluated, valid CREATE allowed under baseline:v1.24 and a privileged:v1.24 relaxation of it *)
+Example C03_admission_in_scope :
+  evaluated_pod cex_cfg cex_req (World (Some lb) "" None None 0) = Some (lb, cex_pod)
+  /\ evaluated_pod cex_cfg cex_req (World (Some lp) "" None None 0) = Some (lp, cex_pod)
+  /\ api_valid cex_pod = true
+  /\ lv_version (enforce (spec_policy lp (cf_defaults cex_cfg))) = lv_version (enforce (spec_policy lb (cf_defaults cex_cfg)))
+  /\ (strictness (lv_level (enforce (spec_policy lp (cf_defaults cex_cfg))))
+      <= strictness (lv_level (enforce (spec_policy lb (cf_defaults cex_cfg)))))%N
+  /\ rs_allowed (fst (validate cex_cfg (shipped_ev false) cex_req (World (Some lb) "" None None 0))) = true
+  /\ lv_level (enforce (spec_policy lp (cf_defaults cex_cfg))) = Privileged.
+Proof. exact monotone_in_scope. Qed.
